@@ -11,6 +11,7 @@ from lib.tlc import MachineryError
 from lib.tracejudge import judge
 
 VARIANTS = ("load_dump", "json", "pickle", "copy")
+FIELDS = ["cls", "val", "args", "type", "comments", "meta"]
 
 
 def write_cfg(path, *, n, pop, maxops, sv="code", emit=False):
@@ -133,7 +134,7 @@ def roundtrips(tree, dialects):
                 back = serde.load(json.loads(jtext)) if jtext is not None else None
                 err = dump_err or (None if jsonsafe else f"dump is not JSON serialisable: {unsafe}")
                 if not jsonsafe:
-                    out.append({"variant": v, "a": a, "b": a, "eq": True, "sqlsame": True, "jsonsafe": False, "noshare": True, "err": err, "unsafe": unsafe})
+                    out.append({"variant": v, "fields": FIELDS, "a": a, "b": a, "eq": True, "sqlsame": True, "jsonsafe": False, "noshare": True, "err": err, "unsafe": unsafe})
                     continue
             elif v == "pickle":
                 back = pickle.loads(pickle.dumps(tree))
@@ -142,7 +143,7 @@ def roundtrips(tree, dialects):
         except Exception as e:
             err = f"{type(e).__name__}: {e}"
         if back is None:
-            out.append({"variant": v, "a": a, "b": [], "eq": False, "sqlsame": False, "jsonsafe": True, "noshare": True, "err": err or "no result"})
+            out.append({"variant": v, "fields": FIELDS, "a": a, "b": [], "eq": False, "sqlsame": False, "jsonsafe": True, "noshare": True, "err": err or "no result"})
             continue
         b, bids = project_full(back)
         sqlsame = True
@@ -153,7 +154,7 @@ def roundtrips(tree, dialects):
                 s = f"!{type(e).__name__}"
             if s != base_sql[d]:
                 sqlsame = False
-        out.append({"variant": v, "a": a, "b": b, "eq": bool(back == tree), "sqlsame": sqlsame, "jsonsafe": True,
+        out.append({"variant": v, "fields": FIELDS, "a": a, "b": b, "eq": bool(back == tree), "sqlsame": sqlsame, "jsonsafe": True,
                     "noshare": not (aids & bids), "err": err})
     return out
 
